@@ -29,9 +29,8 @@ N0 == TIdx("n", 0)   N1 == TIdx("n", 1)   M0 == TIdx("m", 0)
 
 \* ---------------------------------------------------------------- alphabets (2-element value domain {0,1})
 FlatR == << OAssign("a", ELit(<<0, 1>>)), OAssign("b", EVar("a")), OAssign("b", EClone(A)),
-            OGet(A, 0), OGet(A, 1), OSet(A, 0, EInt(1)), OSet(A, 1, EInt(0)),
-            OPush(A, EInt(0)), OPush(A, EInt(1)), OPop(A), OSwap(A, 0, 1), ORemove(A, 0), OClear(A),
-            OFind(A, EInt(1)), OPush(B, EInt(1)), OPop(B), OIter(A), OLen(A) >>
+            OGet(A, 0), OSet(A, 0, EInt(1)), OPush(A, EInt(0)), OPush(A, EInt(1)), OPop(A), OSwap(A, 0, 1), ORemove(A, 0),
+            OClear(A), OFind(A, EInt(1)), OPop(B), OIter(A) >>
 
 FlatF == << OAssign("a", ELit(<<>>)), OAssign("a", ELit(<<0>>)), OAssign("a", ELit(<<0, 1>>)), OAssign("a", ELit(<<1, 0, 1>>)),
             OAssign("a", EFilled(0, 0)), OAssign("a", EFilled(1, 2)), OAssign("a", EFilled(0, 3)),
@@ -95,11 +94,11 @@ Next == Live /\ job' = job /\ LET al == Alpha IN \E k \in 1..Len(al) : hist' = A
 OneOf(S) == IF Cardinality(S) = 1 THEN CHOOSE x \in S : TRUE ELSE [oneof |-> SetToSeq(S)]
 Expect == IF stat.err = "" THEN [status |-> "done", out |-> OneOf({c.out : c \in cs})]
           ELSE [status |-> "error", errkind |-> stat.err, out |-> OneOf(stat.eouts)]
+\* class of an operation for the coverage statistics: name, form of the operand, inner-array target
+KindOf(o) == o.op \o (IF o.E.k # "none" THEN ":" \o o.E.k ELSE "") \o (IF o.T.k = "idx" THEN "@inner" ELSE "")
 \* every case names its class (`key`); the class of histories ending in a pop on an empty array additionally
 \* describes the deviation known at the pinned revision (host panic after the correct output so far), so that
 \* the known-findings filter hides exactly that deviation and nothing else
-\* class of an operation for the coverage statistics: name, form of the operand, inner-array target
-KindOf(o) == o.op \o (IF o.E.k # "none" THEN ":" \o o.E.k ELSE "") \o (IF o.T.k = "idx" THEN "@inner" ELSE "")
 CaseOf(id, ops) ==
   [id |-> id, fam |-> Fam, maxlen |-> MaxLen, files |-> ("main.abra" :> ProgText(ops, Vars)), inmodel |-> stat.inm,
    ops |-> [i \in 1..Len(ops) |-> ROp(ops[i])], kinds |-> [i \in 1..Len(ops) |-> KindOf(ops[i])], len |-> Len(ops),
